@@ -1,9 +1,9 @@
 (* Proofs.HeaderLineSpec — the vocabulary of the C04 statements, written from the property
    text ("arbitrary blanks or tabs around each field", "surrounding whitespace stripped",
    conformant field contents).  Definitions only. *)
-From Coq Require Import List NArith Bool.
+From Coq Require Import List NArith Bool String.
 Import ListNotations.
-Require Import PyStr Regex.
+Require Import PyStr Regex Regexes HeaderLine.
 Open Scope N_scope.
 
 (* padding characters: blank or tab *)
@@ -31,3 +31,96 @@ Definition is_nil (s : list N) : bool := match s with [] => true | _ => false en
 (* two decimal digits of n < 100 *)
 Definition two_digits (n : nat) : list N :=
   [48 + N.of_nat (Nat.div n 10); 48 + N.of_nat (Nat.modulo n 10)].
+
+(* ---- ~Parameter: clock-time colons.  The look-around alternatives are read off the
+   generated AST of value_with_time_colon_re, so the predicates below follow the source. *)
+Definition time_behind_alts : list (list cls) :=
+  match rx_value_with_time_colon_re with
+  | Seq _ (Seq (NotBehind b) _) => b
+  | _ => []
+  end.
+Definition time_ahead_alts : list (list cls) :=
+  match rx_value_with_time_colon_re with
+  | Seq _ (Seq _ (Seq _ (NotAhead a))) => a
+  | _ => []
+  end.
+
+(* a colon followed by s is not a separator: s starts with [0-5][0-9], mm or MM *)
+Definition ahead_blocked (s : list N) : bool :=
+  existsb (fun ks => prefix_cls ks s) time_ahead_alts.
+(* a colon preceded by (reversed) p is not a separator: " [0-2][0-3]", " hh", " HH" *)
+Definition behind_blocked (p : list N) : bool :=
+  existsb (fun ks => prefix_cls (rev ks) p) time_behind_alts.
+
+(* every colon of s is a clock colon: followed, inside s, by minutes/seconds digits
+   [0-5][0-9] (or the format letters mm / MM) *)
+Fixpoint clock_colons (s : list N) : bool :=
+  match s with
+  | [] => true
+  | c :: s' => (negb (c =? 58) || ahead_blocked s') && clock_colons s'
+  end.
+
+(* no colon of the line s (p = reversed text to the left) can act as ~Parameter separator *)
+Fixpoint no_eligible_colon (p s : list N) : bool :=
+  match s with
+  | [] => true
+  | c :: s' => (negb (c =? 58) || behind_blocked p || ahead_blocked s')
+               && no_eligible_colon (c :: p) s'
+  end.
+
+(* ---- the layouts and the conformance predicates of the statements ---------------------- *)
+(* MNEM .UNIT  VALUE : DESCRIPTION with six paddings *)
+Definition layout (p0 mn p1 u p2 v p3 p4 d p5 : list N) : list N :=
+  p0 ++ mn ++ p1 ++ [46] ++ u ++ p2 ++ v ++ p3 ++ [58] ++ p4 ++ d ++ p5.
+(* NAME : VALUE (no period) with four paddings *)
+Definition layout_np (p0 nm p1 p4 v p5 : list N) : list N :=
+  p0 ++ nm ++ p1 ++ [58] ++ p4 ++ v ++ p5.
+
+Definition padding6 (p0 p1 p2 p3 p4 p5 : list N) : bool :=
+  blanks p0 && blanks p1 && blanks p2 && blanks p3 && blanks p4 && blanks p5.
+
+(* mnemonic: non-empty, no '.', no ':', no leading/trailing white space (inner blanks allowed) *)
+Definition conf_mnem (mn : list N) : bool :=
+  negb (is_nil mn) && negb (in_str 46 mn) && negb (in_str 58 mn) && stripped mn.
+
+(* unit: no white space, does not end with '.', not entirely digits unless empty
+   (interior dots and colons allowed) *)
+Definition conf_unit (u : list N) : bool :=
+  no_space u && negb (endswith [46] u) && (is_nil u || negb (all_digit u)).
+
+(* value / description text: stripped, no newline *)
+Definition conf_text (x : list N) : bool := stripped x && negb (in_str 10 x).
+
+(* the grammar cannot tell unit from value unless a blank separates them *)
+Definition value_set_off (p2 v : list N) : bool := is_nil v || negb (is_nil p2).
+
+(* the name of a line without a period: no '.', no ':', stripped *)
+Definition conf_name_np (nm : list N) : bool :=
+  negb (in_str 46 nm) && negb (in_str 58 nm) && stripped nm.
+
+(* "1000 lbf": non-empty digits, one blank or tab, a non-empty white-space-free word not
+   ending with '.' *)
+Definition conf_numeric_unit (ds : list N) (sp : N) (w : list N) : bool :=
+  negb (is_nil ds) && all_digit ds && is_blank sp && negb (is_nil w) && no_space w
+  && negb (endswith [46] w).
+
+Definition no_double_dot (line : list N) : bool := negb (contains [46; 46] line).
+
+Definition hline_eqb (a b : hline) : bool :=
+  str_eqb (h_name a) (h_name b) && str_eqb (h_unit a) (h_unit b)
+  && str_eqb (h_value a) (h_value b) && str_eqb (h_descr a) (h_descr b).
+Definition ohline_eqb (a b : option hline) : bool :=
+  match a, b with
+  | Some x, Some y => hline_eqb x y
+  | None, None => true
+  | _, _ => false
+  end.
+
+(* ---- the clock-time sweep: TIME.  hh:mm 23-JAN-2001 : Time: At Bottom ------------------ *)
+Open Scope string_scope.
+Definition time_line (h mi : nat) : list N :=
+  s2l "TIME.  " ++ two_digits h ++ [58] ++ two_digits mi ++ s2l " 23-JAN-2001 : Time: At Bottom".
+Definition time_expected (h mi : nat) : hline :=
+  mkhl (s2l "TIME") [] (two_digits h ++ [58] ++ two_digits mi ++ s2l " 23-JAN-2001")
+       (s2l "Time: At Bottom").
+Close Scope string_scope.
